@@ -438,6 +438,25 @@ Proof.
   - eapply pw_ev_inv; [apply pw_event_op_step|]; assumption.
 Qed.
 
+Lemma pw_keys_stay : forall c o b0, pw_inv c ->
+  match o with DeleteBucket _ => False | _ => True end ->
+  aget b0 (pw_map c) <> None -> aget b0 (pw_map (fst (pw_step c o))) <> None.
+Proof.
+  intros c o b0 Hi Ho Hb0. destruct (lifecycle_write o) eqn:Hw.
+  - destruct o as [b m|b ty cl ho na da|b| | | | | | | | | | ]; cbn in Hw; try discriminate.
+    + destruct (aget b (pw_map c)) as [[m0 es0]|] eqn:E.
+      * destruct (pw_present_find _ _ _ _ E) as (r0 & Hf & _).
+        cbn [pw_step]. unfold pw_insert_bucket. rewrite (existsb_true_find _ _ _ Hf). exact Hb0.
+      * destruct (pw_create_absent c b m Hi E) as (c' & Hs & Hm & _). rewrite Hs. cbn. rewrite Hm.
+        apply aget_app_stays. assumption.
+    + destruct (aget b (pw_map c)) as [[m0 es0]|] eqn:E.
+      * destruct (pw_update_present c b ty cl ho na da m0 es0 Hi E) as (c' & Hs & Hm).
+        rewrite Hs. cbn. rewrite Hm. apply aget_aset_stays. assumption.
+      * cbn [pw_step]. rewrite (pw_missing_key c b Hi E). exact Hb0.
+    + destruct Ho.
+  - eapply listing_same_stays; [apply pw_ev_listing; apply pw_event_op_step; assumption|assumption].
+Qed.
+
 Lemma pw_ok : store_ok pwB.
 Proof.
   constructor; cbn [b_state b_init b_step b_view b_map b_inv pwB].
@@ -448,6 +467,7 @@ Proof.
   - intros c. cbn [pw_step]. rewrite pw_listing. reflexivity.
   - apply pw_step_inv.
   - intros c o _ Ho. apply pw_ev_listing. apply pw_event_op_step. assumption.
+  - apply pw_keys_stay.
   - (* create *)
     intros c b m Hi Habs. destruct (pw_create_absent c b m Hi Habs) as (c' & Hs & Hm & _).
     exists c', ONone, m. split; [assumption|]. split; [|assumption].
